@@ -1,5 +1,6 @@
 """C01 every IntervalSet is canonical and covers the union of its inputs."""
 import itertools
+import json
 import random
 import warnings
 
@@ -20,8 +21,20 @@ def _nap():
     return nap
 
 
+INF_TICK = 10**18          # +-inf endpoints (widened inputs) are spelled as +-INF_TICK ticks
+
+
+def _tick(x):
+    x = float(x)
+    if x == float("inf"):
+        return INF_TICK
+    if x == float("-inf"):
+        return -INF_TICK
+    return C.to_ns(x)
+
+
 def out_ticks(ep):
-    return [(C.to_ns(s), C.to_ns(e)) for s, e in ep.values]
+    return [(_tick(s), _tick(e)) for s, e in ep.values]
 
 
 def float_canonical(v):
@@ -206,6 +219,1190 @@ def run(res, tier, seed):
                                            "input": {"A": A}, "impl": r.values.tolist()})
     res.evaluations += ops_cases
     res.count("ops_cases", ops_cases)
+    # ---- widened argument forms
+    res.rule += (
+        " || WIDENED FORMS (same oracles; model compared wherever the result is built from known pairs; runs in two argument forms compared as disagreements). "
+        "[dtype] start/end as whole numbers of s/ms/us in uint8..uint64, int8..int64, float16/32/64 and bool arrays, start and end of different dtypes, values below 0 for signed types; "
+        "+inf ends and -inf starts (cover clause applied with +-inf as +-1e18 ticks) and NaN endpoints (canonicity only; no NaN may survive); series data in float32/int64/int16/uint8/bool, NaN / +inf / -inf / all-equal / zero data for threshold and dropna. "
+        "[time-argument form] ndarray, list, tuple, pandas Series (own index) / Index, another object's TsIndex and .t, strided / reversed / read-only views, start and end sharing one memory block, "
+        "column and row vectors, iterables of pairs (Fortran order, transposed view, lists of tuples / lists / arrays, iterator, one pair), DataFrames (columns reordered, metadata columns, own row labels), "
+        "numpy scalars, 0-d arrays, Python ints; integer-typed times incl. unsigned. "
+        "[positional / keyword] every parameter of the constructor and of union/intersect/set_diff/split/merge_close_intervals/drop_short/long_intervals/threshold/dropna/find_support/restrict/get/count/"
+        "bin_average/value_from/interpolate/TsGroup given positionally, by keyword and mixed; defaults spelled out; metadata given or not; merge flags combined; option strings in another letter case must raise or give canonical sets. "
+        "[units] s/ms/us for every container and for every duration argument (int, float, numpy.float64/float32/int64/uint16), the same instants must give the same set. "
+        "[placement] the case multisets re-placed at 0, straddling 0, negative and +-1e5 s, snapped to the us / ms / s grids; receivers on 1 us, 2 ms, 0.5 s and 2^-8 s lattices; samples on epoch ends by construction. "
+        "[degenerate] empty input in every container, single pairs in every scalar form, empty / one-interval receivers, empty series, one sample, coinciding timestamps (with and, on purpose, without a given support), "
+        "duplicates, all-False masks, empty TsGroup, groups with empty members, keys not 0..n-1 / unsorted / multi-digit strings / floats / numpy ints. "
+        "[class] IntervalSet with and without metadata as receiver and argument; Ts, Tsd, TsdFrame (string / non-0..n-1 integer / unsorted column labels), TsdTensor, TsGroup from dict or list of Ts / Tsd / bare arrays. "
+        "[histories] a live canonical set handed back whole / by columns / views / as_dataframe / as_units / numpy conversion / save+load / pickle; indexing by int, negative, numpy ints, slices (negative step, beyond the end), "
+        "lists with duplicates, int arrays of every width, masks (ndarray, list, Series), Series / Index keys, (rows, columns) tuples, .loc: the result must be the statement's set of the SELECTED rows; "
+        "three operands, the same live object twice, results fed to the next operation; seeded histories of 1-4 operations on series and of 0-3 operations on groups, every support met on the way canonical, "
+        "default supports equal to the statement's set of the single pair (first, last timestamp), a group built without time_support covers exactly the union of its members' supports, bypass_check=True with pre-restricted members."
+    )
+    widen_constructor(res, nap, tier, seed, cases)
+    widen_dtypes(res, nap, tier, seed, cases)
+    widen_nonfinite(res, nap, tier, seed, cases)
+    widen_roundtrip(res, nap, tier, seed, cases)
+    widen_ops(res, nap, tier, seed)
+    widen_supports(res, nap, tier, seed)
+    widen_groups(res, nap, tier, seed)
+    widen_options(res, nap, tier, seed)
+
+
+# ======================================================================================
+# WIDENED ARGUMENT FORMS (the oracle stays check_output / float_canonical; only the generators grow)
+UNIT = {"s": 10**9, "ms": 10**6, "us": 10**3}
+
+
+def fv(x, unit="s"):
+    """ticks -> float64 values in `unit` (the same instants in every unit)"""
+    x = list(x)
+    if unit == "s":
+        return G.arr(x)
+    return np.asarray(x, dtype=np.float64) / float(UNIT[unit]) if len(x) else np.array([], dtype=np.float64)
+
+
+def divisible(x, unit):
+    return all(t % UNIT[unit] == 0 for t in x)
+
+
+def iv(x, unit):
+    """ticks -> Python ints in `unit` (only when divisible)"""
+    return [int(t) // UNIT[unit] for t in x]
+
+
+def _obtain(res, what, inp, f, strict=True, extra_key=None):
+    """run one public call; an accepted input form that raises gives the user no IntervalSet at all: reported (part=exception).
+    strict=False: the documented signature does not clearly accept the form: a clean Python exception is fine"""
+    try:
+        return f()
+    except Exception as ex:
+        if strict:
+            key = {"op": what, "part": "exception", "type": type(ex).__name__}
+            key.update(extra_key or {})
+            res.violations.append({"key": key, "what": "an accepted argument form raises instead of returning: %s" % str(ex)[:160], "input": inp})
+        else:
+            res.count("clean_exception")
+        return None
+
+
+def _model_isets(lines):
+    out = []
+    for mo in C.run_model(lines):
+        mv = [int(x) for x in mo.split()]
+        out.append(list(zip(mv[0::2], mv[1::2])))
+    return out
+
+
+def _mk_line(prs):
+    return "mk_iset\t%s\t%s" % (C.fmt_ints([s for s, _ in prs]), C.fmt_ints([e for _, e in prs]))
+
+
+def ctor_forms(nap):
+    """every accepted way of handing the SAME multiset of (start, end) pairs to the constructor: (name, applicable, build, strict)"""
+    IS = nap.IntervalSet
+    L = []
+
+    def add(name, build, pred=None, strict=True):
+        L.append((name, pred or (lambda ss, es: True), build, strict))
+
+    one = lambda ss, es: len(ss) == 1
+    nz = lambda ss, es: len(ss) >= 1
+    lab = lambda n: ["m%d" % i for i in range(n)]
+    pl = lambda ss, es, u="s": list(zip(fv(ss, u).tolist(), fv(es, u).tolist()))
+    # --- containers of the time arguments
+    add("list", lambda ss, es: IS(fv(ss).tolist(), fv(es).tolist()))
+    add("tuple", lambda ss, es: IS(tuple(fv(ss).tolist()), tuple(fv(es).tolist())))
+    add("list+ndarray", lambda ss, es: IS(fv(ss).tolist(), fv(es)))
+    add("series", lambda ss, es: IS(pd.Series(fv(ss)), pd.Series(fv(es))))
+    add("series_own_index", lambda ss, es: IS(pd.Series(fv(ss), index=np.arange(len(ss))[::-1] + 5), pd.Series(fv(es), index=lab(len(es)))))
+    add("series+tuple", lambda ss, es: IS(pd.Series(fv(ss)), tuple(fv(es).tolist())))
+    add("pd_index", lambda ss, es: IS(pd.Index(fv(ss)), pd.Index(fv(es))))
+    add("tsindex", lambda ss, es: IS(nap.Ts(t=fv(ss)).index, nap.Tsd(t=fv(es), d=np.zeros(len(es))).index))
+    add("ts_t", lambda ss, es: IS(nap.Ts(t=fv(ss)).t, nap.Ts(t=fv(es)).t))
+    add("strided_view", lambda ss, es: IS(np.repeat(fv(ss), 2)[::2], np.repeat(fv(es), 3)[1::3]))
+    add("reversed_view", lambda ss, es: IS(fv(ss[::-1])[::-1], fv(es[::-1])[::-1]))
+
+    def shared_cols(ss, es):
+        M = np.stack([fv(ss), fv(es)], axis=1)
+        return IS(M[:, 0], M[:, 1])
+
+    def shared_rows(ss, es):
+        M = np.stack([fv(ss), fv(es)])
+        return IS(M[0], M[1])
+
+    def readonly(ss, es):
+        a, b = fv(ss), fv(es)
+        a.setflags(write=False)
+        b.setflags(write=False)
+        return IS(a, b)
+
+    add("shared_memory_columns", shared_cols)
+    add("shared_memory_rows", shared_rows)
+    add("readonly", readonly)
+    add("column_and_row_vectors", lambda ss, es: IS(fv(ss)[:, None], fv(es)[None, :]))
+    # --- positional / keyword, defaults spelled out, metadata
+    add("kw", lambda ss, es: IS(start=fv(ss), end=fv(es)))
+    add("kw_swapped", lambda ss, es: IS(end=fv(es), start=fv(ss)))
+    add("pos+kw", lambda ss, es: IS(fv(ss), end=fv(es)))
+    add("units_s_positional", lambda ss, es: IS(fv(ss), fv(es), "s"))
+    add("all_kw_defaults", lambda ss, es: IS(start=fv(ss), end=fv(es), time_units="s", metadata=None))
+    add("metadata_dict", lambda ss, es: IS(fv(ss), fv(es), metadata={"lab": lab(len(ss)), "w": list(range(len(ss)))}))
+    add("metadata_df_positional", lambda ss, es: IS(fv(ss), fv(es), "s", pd.DataFrame({"w": np.arange(len(ss))})))
+    # --- array of pairs
+    add("pairs_fortran", lambda ss, es: IS(np.asfortranarray(np.stack([fv(ss), fv(es)], axis=1))), nz)
+    add("pairs_transposed_view", lambda ss, es: IS(np.stack([fv(ss), fv(es)]).T), nz)
+    add("pairs_list_of_tuples", lambda ss, es: IS(pl(ss, es)), nz)
+    add("pairs_list_of_lists", lambda ss, es: IS([list(p) for p in pl(ss, es)]), nz)
+    add("pairs_tuple_of_tuples", lambda ss, es: IS(tuple(pl(ss, es))), nz)
+    add("pairs_list_of_arrays", lambda ss, es: IS([np.array(p) for p in pl(ss, es)]), nz)
+    add("pairs_iterator", lambda ss, es: IS(zip(fv(ss).tolist(), fv(es).tolist())), nz)
+    add("pairs_kw", lambda ss, es: IS(start=np.stack([fv(ss), fv(es)], axis=1)), nz)
+    add("pairs_end_none", lambda ss, es: IS(np.stack([fv(ss), fv(es)], axis=1), None, "s"), nz)
+    add("single_pair_tuple", lambda ss, es: IS(pl(ss, es)[0]), one)
+    add("single_pair_list", lambda ss, es: IS(list(pl(ss, es)[0])), one)
+    add("single_pair_array", lambda ss, es: IS(np.array(pl(ss, es)[0])), one)
+    add("pairs_empty", lambda ss, es: IS(np.zeros((0, 2))), lambda ss, es: len(ss) == 0, strict=False)
+    # --- DataFrame
+    add("dataframe_cols_reversed", lambda ss, es: IS(pd.DataFrame({"end": fv(es), "start": fv(ss)})))
+    add("dataframe_meta", lambda ss, es: IS(pd.DataFrame({"lab": lab(len(ss)), "start": fv(ss), "w": np.arange(len(ss)), "end": fv(es)})))
+    add("dataframe_kw", lambda ss, es: IS(start=pd.DataFrame({"start": fv(ss), "end": fv(es)})))
+    # --- scalars
+    add("scalars_float", lambda ss, es: IS(float(fv(ss)[0]), float(fv(es)[0])), one)
+    add("scalars_npfloat64", lambda ss, es: IS(fv(ss)[0], fv(es)[0]), one)
+    add("scalars_0d", lambda ss, es: IS(np.array(fv(ss)[0]), np.array(fv(es)[0])), one)
+    add("scalars_mixed", lambda ss, es: IS(float(fv(ss)[0]), fv(es)), one)
+    add("scalars_kw", lambda ss, es: IS(start=float(fv(ss)[0]), end=float(fv(es)[0])), one)
+    # --- time units with every container; integer-dtype times where the instants are whole units
+    for u in ("ms", "us"):
+        dv = lambda ss, es, u=u: divisible(ss, u) and divisible(es, u)
+        dvp = lambda ss, es, u=u: divisible(ss, u) and divisible(es, u) and min(list(ss) + list(es) + [0]) >= 0
+        add("list,%s" % u, lambda ss, es, u=u: IS(fv(ss, u).tolist(), fv(es, u).tolist(), time_units=u))
+        add("tuple,%s,positional" % u, lambda ss, es, u=u: IS(tuple(fv(ss, u).tolist()), tuple(fv(es, u).tolist()), u))
+        add("series,%s" % u, lambda ss, es, u=u: IS(pd.Series(fv(ss, u)), pd.Series(fv(es, u)), time_units=u))
+        add("pd_index,%s" % u, lambda ss, es, u=u: IS(pd.Index(fv(ss, u)), pd.Index(fv(es, u)), time_units=u))
+        add("strided_view,%s" % u, lambda ss, es, u=u: IS(np.repeat(fv(ss, u), 2)[::2], np.repeat(fv(es, u), 2)[1::2], time_units=u))
+        add("dataframe,%s" % u, lambda ss, es, u=u: IS(pd.DataFrame({"start": fv(ss, u), "end": fv(es, u)}), time_units=u))
+        add("dataframe_meta,%s" % u, lambda ss, es, u=u: IS(pd.DataFrame({"start": fv(ss, u), "end": fv(es, u), "lab": lab(len(ss))}), None, u))
+        add("pairs_list,%s" % u, lambda ss, es, u=u: IS(pl(ss, es, u), time_units=u), nz)
+        add("pairs_fortran,%s" % u, lambda ss, es, u=u: IS(np.asfortranarray(np.stack([fv(ss, u), fv(es, u)], axis=1)), time_units=u), nz)
+        add("scalars,%s" % u, lambda ss, es, u=u: IS(float(fv(ss, u)[0]), float(fv(es, u)[0]), u), one)
+        add("metadata,%s" % u, lambda ss, es, u=u: IS(fv(ss, u), fv(es, u), time_units=u, metadata={"lab": lab(len(ss))}))
+    for u in ("s", "ms", "us"):
+        dv = lambda ss, es, u=u: divisible(ss, u) and divisible(es, u)
+        dvp = lambda ss, es, u=u: divisible(ss, u) and divisible(es, u) and min(list(ss) + list(es) + [0]) >= 0
+        add("int64,%s" % u, lambda ss, es, u=u: IS(np.array(iv(ss, u), dtype=np.int64), np.array(iv(es, u), dtype=np.int64), time_units=u), dv)
+        add("uint64,%s" % u, lambda ss, es, u=u: IS(np.array(iv(ss, u), dtype=np.uint64), np.array(iv(es, u), dtype=np.uint64), time_units=u), dvp)
+        add("uint64+int64,%s" % u, lambda ss, es, u=u: IS(np.array(iv(ss, u), dtype=np.uint64), np.array(iv(es, u), dtype=np.int64), time_units=u), dvp)
+        add("pylist_int,%s" % u, lambda ss, es, u=u: IS(iv(ss, u), iv(es, u), time_units=u), dv)
+        add("series_int,%s" % u, lambda ss, es, u=u: IS(pd.Series(iv(ss, u), dtype=np.int64), pd.Series(iv(es, u), dtype=np.int64), u), dv)
+        add("dataframe_int,%s" % u, lambda ss, es, u=u: IS(pd.DataFrame({"start": np.array(iv(ss, u), dtype=np.int64), "end": np.array(iv(es, u), dtype=np.int64)}), time_units=u), dv)
+        add("pairs_int,%s" % u, lambda ss, es, u=u: IS(np.array(list(zip(iv(ss, u), iv(es, u))), dtype=np.int64).reshape(-1, 2), time_units=u),
+            lambda ss, es, u=u: len(ss) >= 1 and divisible(ss, u) and divisible(es, u))
+        add("pairs_pyint,%s" % u, lambda ss, es, u=u: IS(list(zip(iv(ss, u), iv(es, u))), time_units=u),
+            lambda ss, es, u=u: len(ss) >= 1 and divisible(ss, u) and divisible(es, u))
+        add("int_scalars,%s" % u, lambda ss, es, u=u: IS(iv(ss, u)[0], iv(es, u)[0], time_units=u),
+            lambda ss, es, u=u: len(ss) == 1 and divisible(ss, u) and divisible(es, u))
+        add("npint_scalars,%s" % u, lambda ss, es, u=u: IS(np.int64(iv(ss, u)[0]), np.array(iv(es, u)[0]), u),
+            lambda ss, es, u=u: len(ss) == 1 and divisible(ss, u) and divisible(es, u))
+    return L
+
+
+W_OFFS = [0, -1500, -2500, 10**14, -10**14, -10**7, 10**14 + 500]      # straddling 0, +-1e5 s
+
+
+def widen_constructor(res, nap, tier, seed, cases):
+    """axes 2-6 and 8 on the constructor: the case multisets of run() re-placed in time and snapped to the us / ms grids, each handed over in a
+    rotating + seeded selection of the argument forms of ctor_forms(); full oracle (check_output) and the model on every one"""
+    quick = tier == "quick"
+    rng = random.Random(seed * 7919 + 11)
+    forms = ctor_forms(nap)
+    K = 1300 if quick else 6000
+    per = 5 if quick else 7
+    pick = [c for c in cases if len(c) <= 1] + [rng.choice(cases) for _ in range(K)]
+    wcases = []
+    for n, prs in enumerate(pick):
+        off = W_OFFS[n % len(W_OFFS)]
+        grid = ("ns", "us", "ms", "s")[rng.randrange(4)] if n % 3 else "ns"
+        if grid == "ns":
+            q = [(s + off, e + off) for s, e in prs]
+        else:
+            # snap to whole microseconds, then scale: the instants become whole us / ms / s (integer-typed arguments become possible)
+            k = {"us": 1, "ms": 1000, "s": 10**6}[grid]
+            o = (off // (1000 * k)) * 1000 * k
+            q = [((s // 1000) * 1000 * k + o, (e // 1000) * 1000 * k + o) for s, e in prs]
+        wcases.append((grid, q))
+    model = _model_isets([_mk_line(q) for _, q in wcases])
+    rot = 0
+    for n, ((grid, prs), mout) in enumerate(zip(wcases, model)):
+        ss = [s for s, _ in prs]
+        es = [e for _, e in prs]
+        inp = {"start": ss, "end": es}
+        app = [f for f in forms if f[1](ss, es)]
+        if len(prs) <= 1:
+            chosen = app                       # the empty input and the single pairs meet every applicable form
+        else:
+            chosen = [app[(rot + j * 7) % len(app)] for j in range(per - 2)] + rng.sample(app, 2)
+            rot += 1
+        res.case(("w", tuple(ss), tuple(es)), nontrivial=len(prs) >= 2)
+        res.count("w_grid=%s" % grid)
+        res.count("w_offset=%d" % W_OFFS[n % len(W_OFFS)])
+        for fname, _, build, strict in chosen:
+            what = "IntervalSet[%s]" % fname
+            inp_f = dict(inp, form=fname)
+            ep = _obtain(res, what, inp_f, lambda: build(ss, es), strict)
+            res.evaluations += 1
+            res.count("wform=" + fname)
+            if ep is not None:
+                check_output(res, what, inp_f, ep, mout, prs)
+    # a DataFrame that kept the row labels of a larger table (rows filtered out), rows already in order / not in order
+    for n, ((grid, prs), mout) in enumerate(zip(wcases, model)):
+        if n % 9 or not prs:
+            continue
+        ss = [s for s, _ in prs]
+        es = [e for _, e in prs]
+        for with_meta in (False, True):
+            d = {"start": fv(ss), "end": fv(es)}
+            if with_meta:
+                d["lab"] = ["m%d" % i for i in range(len(ss))]
+            df = pd.DataFrame(d, index=np.arange(len(ss)) * 2 + 3)
+            in_order = bool(np.all(np.diff(fv(ss)) >= 0))
+            what = "IntervalSet[dataframe_own_index]"
+            inp = {"start": ss, "end": es, "form": "dataframe with index %s%s" % (df.index.tolist(), ", metadata column" if with_meta else "")}
+            ep = _obtain(res, what, inp, lambda: nap.IntervalSet(df), True,
+                         {"dataframe_index_not_default": True, "rows_in_start_order": in_order})
+            res.evaluations += 1
+            res.count("wform=dataframe_own_index,in_order=%s" % in_order)
+            if ep is not None:
+                check_output(res, what, inp, ep, mout, prs)
+
+
+W_DT = [np.uint8, np.uint16, np.uint32, np.uint64, np.int8, np.int16, np.int32, np.int64, np.float16, np.float32, np.float64, np.bool_]
+
+
+def widen_dtypes(res, nap, tier, seed, cases):
+    """axes 1, 2, 4 on the constructor: whole numbers of s / ms / us (the order type of a case, endpoints replaced by their ranks, shifted below 0 for the
+    signed types) in every integer / float / bool dtype, start and end possibly of DIFFERENT dtypes, in every container; numpy scalars for single pairs"""
+    quick = tier == "quick"
+    rng = random.Random(seed * 7919 + 12)
+    IS = nap.IntervalSet
+    signed = lambda dt: np.dtype(dt).kind in "if"
+    conts = {
+        "two_arrays": lambda a, b, u: IS(a, b, time_units=u),
+        "pairs": lambda a, b, u: IS(np.stack([a, b], axis=1), time_units=u),
+        "dataframe": lambda a, b, u: IS(pd.DataFrame({"start": a, "end": b}), time_units=u),
+        "lists": lambda a, b, u: IS(a.tolist(), b.tolist(), u),
+        "series": lambda a, b, u: IS(pd.Series(a), pd.Series(b), time_units=u),
+        "tuple_of_npscalars": lambda a, b, u: IS(tuple(a), tuple(b), time_units=u),
+        "list_of_npscalar_pairs": lambda a, b, u: IS([(x, y) for x, y in zip(a, b)], time_units=u),
+        "ts_index_of_dtype": lambda a, b, u: IS(nap.Ts(t=a, time_units=u).index, nap.Ts(t=b, time_units=u).index),
+        "np_scalars": lambda a, b, u: IS(a[0], b[0], u),
+        "0d_arrays": lambda a, b, u: IS(a[0:1].reshape(()), b[0:1].reshape(()), time_units=u),
+    }
+    todo = []
+    src = [c for n, c in enumerate(cases) if c and n % (23 if quick else 11) == 5]
+    ranked = []
+    for prs in src:
+        rank = {v: i for i, v in enumerate(sorted({x for pr in prs for x in pr}))}
+        ranked.append(([(rank[s_], rank[e_]) for s_, e_ in prs], None))
+    for m in (1, 2):                                      # every multiset of <= 2 pairs over {0, 1}: the cases a bool array can spell
+        for c in itertools.combinations_with_replacement([(0, 0), (0, 1), (1, 0), (1, 1)], m):
+            ranked.append((list(c), np.bool_))
+    for rp, force in ranked:
+        top = max(max(p) for p in rp)
+        for _ in range(3):
+            d1 = force or rng.choice(W_DT)
+            d2 = d1 if rng.random() < 0.5 else rng.choice(W_DT)
+            if top > 1:                                   # bool holds 0 / 1 only
+                d1 = rng.choice(W_DT[:11]) if d1 is np.bool_ else d1
+                d2 = rng.choice(W_DT[:11]) if d2 is np.bool_ else d2
+            shift = rng.choice([0, 1, top // 2 + 1, top + 2]) if signed(d1) and signed(d2) else 0
+            u = rng.choice(["s", "ms", "us"])
+            names = [c for c in conts if (len(rp) == 1 or c not in ("np_scalars", "0d_arrays"))]
+            if np.bool_ in (d1, d2):
+                names = [c for c in names if c != "np_scalars"]        # numpy.bool_ is not a number for the constructor (clean RuntimeError)
+            cn = rng.choice(names) if len(rp) > 1 else None
+            todo.append((rp, shift, d1, d2, u, cn))
+    model = _model_isets([_mk_line([((s_ - sh) * UNIT[u], (e_ - sh) * UNIT[u]) for s_, e_ in rp]) for rp, sh, _, _, u, _ in todo])
+    for (rp, sh, d1, d2, u, cn), mout in zip(todo, model):
+        a = np.array([s_ - sh for s_, _ in rp], dtype=d1)
+        b = np.array([e_ - sh for _, e_ in rp], dtype=d2)
+        tprs = [((s_ - sh) * UNIT[u], (e_ - sh) * UNIT[u]) for s_, e_ in rp]
+        inp = {"start": a.tolist(), "end": b.tolist(), "dtype_start": np.dtype(d1).name, "dtype_end": np.dtype(d2).name, "time_units": u}
+        for c in ([cn] if cn else [c for c in conts if not (c == "np_scalars" and np.bool_ in (d1, d2))]):
+            what = "IntervalSet[%s,%s%s,%s]" % (c, np.dtype(d1).name, "" if d1 is d2 else "+" + np.dtype(d2).name, u)
+            ep = _obtain(res, what, dict(inp, form=c), lambda: conts[c](a, b, u))
+            res.evaluations += 1
+            res.count("wdtype=%s" % np.dtype(d1).name)
+            if d1 is not d2:
+                res.count("wdtype_mixed")
+            res.count("wdtype_container=%s" % c)
+            res.count("wdtype_units=%s" % u)
+            if sh:
+                res.count("wdtype_negative_values")
+            if ep is not None:
+                check_output(res, what, dict(inp, form=c), ep, mout, tprs)
+
+
+def widen_nonfinite(res, nap, tier, seed, cases):
+    """axis 1: +inf ends and -inf starts (every pair still has start <= end: the statement's cover clause applies, +-inf spelled as +-INF_TICK for the
+    model and the oracle); NaN endpoints (no order: only canonicity is determined, and the result must not hold a NaN)"""
+    quick = tier == "quick"
+    rng = random.Random(seed * 7919 + 13)
+    IS = nap.IntervalSet
+    INF = float("inf")
+    src = [c for n, c in enumerate(cases) if c and n % (31 if quick else 13) == 3]
+    todo = []
+    for prs in src:
+        q = [list(p) for p in prs]
+        kind = rng.choice(["inf", "inf", "nan"])
+        hit = rng.sample(range(len(q)), rng.randint(1, len(q)))
+        for i in hit:
+            if kind == "nan":
+                q[i][rng.randrange(2)] = None
+            elif rng.random() < 0.5:
+                q[i][1] = INF_TICK
+            else:
+                q[i][0] = -INF_TICK
+        todo.append((kind, [tuple(p) for p in q]))
+    model = _model_isets([_mk_line([(0 if s is None else s, 0 if e is None else e) for s, e in q]) for _, q in todo])
+
+    def val(t):
+        return float("nan") if t is None else INF if t == INF_TICK else -INF if t == -INF_TICK else t / 1e9
+
+    for n, ((kind, q), mout) in enumerate(zip(todo, model)):
+        s = np.array([val(a) for a, _ in q])
+        e = np.array([val(b) for _, b in q])
+        inp = {"start": s.tolist(), "end": e.tolist()}
+        for fname, f in (("two_arrays", lambda: IS(s, e)), ("pairs", lambda: IS(np.stack([s, e], axis=1))), ("lists", lambda: IS(s.tolist(), e.tolist())),
+                         ("dataframe", lambda: IS(pd.DataFrame({"start": s, "end": e}))), ("ms", lambda: IS(s * 1e3, e * 1e3, time_units="ms")),
+                         ("series,kw", lambda: IS(start=pd.Series(s), end=pd.Series(e)))):
+            what = "IntervalSet[%s,%s]" % (fname, kind)
+            ep = _obtain(res, what, inp, f)
+            res.evaluations += 1
+            res.count("wnonfinite=%s,%s" % (kind, fname))
+            if ep is None:
+                continue
+            if kind == "nan":
+                v = np.asarray(ep.values)
+                if np.isnan(v).any() or not float_canonical(v):
+                    res.violations.append({"key": {"op": what, "part": "canonical"}, "what": "IntervalSet built from inputs holding NaN is not canonical",
+                                           "input": inp, "impl": v.tolist()})
+            else:
+                check_output(res, what, inp, ep, mout, q)
+
+
+def widen_roundtrip(res, nap, tier, seed, cases):
+    """axis 8 on the constructor: a live canonical IntervalSet (with and without metadata) handed back to the constructor whole, by its columns / views of its
+    own memory, through as_dataframe / as_units, a numpy conversion, save + load and pickle: it must come back as the same set (it is canonical, so it is its
+    own union)"""
+    import os
+    import pickle
+    import tempfile
+    quick = tier == "quick"
+    IS = nap.IntervalSet
+    tmp = tempfile.mkdtemp(prefix="c01rt")
+    src = [c for n, c in enumerate(cases) if c and n % (61 if quick else 29) == 7]
+    eps = []
+    for n, prs in enumerate(src):
+        off = W_OFFS[n % len(W_OFFS)]
+        k = 1 if n % 2 else 1000
+        q = [(s * k + off, e * k + off) for s, e in prs] if n % 3 else [((s // 1000) * 1000 + off // 1000 * 1000, (e // 1000) * 1000 + off // 1000 * 1000) for s, e in prs]
+        ep = IS(fv([s for s, _ in q]), fv([e for _, e in q]))
+        t = out_ticks(ep)
+        if len(ep) and all(a < b for a, b in t):
+            eps.append((ep, t))
+    model = _model_isets([_mk_line(t) for _, t in eps])
+    for n, ((ep0, t), mout) in enumerate(zip(eps, model)):
+        meta = n % 2 == 1
+        ep = IS(ep0.values, metadata={"lab": ["m%d" % i for i in range(len(ep0))]}) if meta else ep0
+        path = os.path.join(tmp, "e%d.npz" % (n % 4))
+
+        def saveload():
+            ep.save(path)
+            return nap.load_file(path)
+
+        forms = {"copy": lambda: IS(ep), "copy_kw": lambda: IS(start=ep), "values": lambda: IS(ep.values), "columns": lambda: IS(ep.start, ep.end),
+                 "columns_by_name": lambda: IS(ep["start"], ep["end"]), "columns_by_tuple_index": lambda: IS(ep[:, 0], ep[:, 1]),
+                 "columns_loc": lambda: IS(ep.loc["start"], ep.loc["end"]), "np_asarray": lambda: IS(np.asarray(ep)), "np_array_f": lambda: IS(np.array(ep, order="F")),
+                 "as_dataframe": lambda: IS(ep.as_dataframe()), "as_units_ms": lambda: IS(ep.as_units("ms"), time_units="ms"),
+                 "as_units_s_kw": lambda: IS(start=ep.as_units(units="s")), "reversed_views": lambda: IS(ep.start[::-1], ep.end[::-1]),
+                 "transposed_values": lambda: IS(ep.values.T[0], ep.values.T[1]), "save_load": saveload, "pickle": lambda: pickle.loads(pickle.dumps(ep)),
+                 "index_all": lambda: ep[:], "str_columns": lambda: ep[["start", "end"]], "twice": lambda: IS(IS(ep))}
+        if all(a % 1000 == 0 and b % 1000 == 0 for a, b in t):
+            forms["as_units_us"] = lambda: IS(ep.as_units("us"), time_units="us")
+        inp = {"start": [a for a, _ in t], "end": [b for _, b in t], "metadata": meta}
+        for fname, f in forms.items():
+            what = "IntervalSet[roundtrip:%s]" % fname
+            r = _obtain(res, what, inp, f)
+            res.evaluations += 1
+            res.count("wroundtrip=%s%s" % (fname, ",metadata" if meta else ""))
+            if r is not None:
+                check_output(res, what, dict(inp, form=fname), r, mout, t)
+    for f in os.listdir(tmp):
+        os.remove(os.path.join(tmp, f))
+    os.rmdir(tmp)
+
+
+W_STEPS = [1000, 2 * 10**6, 5 * 10**8, 2 * 1953125]      # 1 us, 2 ms, 0.5 s, 2^-8 s (dyadic)
+
+
+def _place(A, step, k):
+    return [((s + k) * step, (e + k) * step) for s, e in A]
+
+
+def _mk(nap, T, meta=False, how=0):
+    """a canonical set given in ticks -> IntervalSet (how: which constructor form built it; the values are the same)"""
+    ss, es = [s for s, _ in T], [e for _, e in T]
+    md = {"lab": ["m%d" % i for i in range(len(T))], "w": list(range(len(T)))} if meta else None
+    if how == 1:
+        d = {"start": fv(ss), "end": fv(es)}
+        if meta:
+            d.update(md)
+        return nap.IntervalSet(pd.DataFrame(d))
+    if how == 2 and divisible(ss, "us") and divisible(es, "us"):
+        return nap.IntervalSet(np.array(iv(ss, "us"), dtype=np.int64), np.array(iv(es, "us"), dtype=np.int64), time_units="us", metadata=md)
+    if how == 3 and len(T):
+        return nap.IntervalSet(np.stack([fv(ss, "ms"), fv(es, "ms")], axis=1), time_units="ms", metadata=md)
+    return nap.IntervalSet(fv(ss), fv(es), metadata=md)
+
+
+def scalar_forms(rng, ticks, units=True):
+    """the same duration `ticks` as (value, unit, tag) in every scalar type that holds it exactly"""
+    out = []
+    for u in (("s", "ms", "us") if units else ("s",)):
+        v = float(fv([ticks], u)[0])
+        out.append((v, u, "float"))
+        out.append((np.float64(v), u, "np.float64"))
+        if float(np.float32(v)) == v:
+            out.append((np.float32(v), u, "np.float32"))
+        if ticks % UNIT[u] == 0:
+            i = ticks // UNIT[u]
+            out.append((int(i), u, "int"))
+            out.append((np.int64(i), u, "np.int64"))
+            if 0 <= i < 2**16:
+                out.append((np.uint16(i), u, "np.uint16"))
+    return out
+
+
+def index_keys(rng, n):
+    """(name, key, rows selected) over a set of n >= 1 intervals"""
+    R = list(range(n))
+    i = rng.randrange(n)
+    perm = rng.sample(R, n)
+    dup = [rng.randrange(n) for _ in range(n + 1)]
+    m = [rng.random() < 0.5 for _ in R]
+    msel = [j for j in R if m[j]]
+    K = [("int", i, [i]), ("int_negative", i - n, [i]), ("np.int64", np.int64(i), [i]), ("np.uint8", np.uint8(i), [i]), ("np.int32_negative", np.int32(i - n), [i])]
+    for nm, sl in (("all", slice(None)), ("from1", slice(1, None)), ("to-1", slice(None, -1)), ("step2", slice(None, None, 2)), ("reversed", slice(None, None, -1)),
+                   ("beyond", slice(n, None)), ("np_bounds", slice(np.int64(0), np.int64(n))), ("last2", slice(-2, None)), ("odd_reversed", slice(None, None, -2))):
+        K.append(("slice_" + nm, sl, R[sl]))
+    K += [("list_permuted", perm, perm), ("list_duplicates", dup, dup), ("list_negative", [j - n for j in perm], perm),
+          ("ndarray_int64", np.array(perm, dtype=np.int64), perm), ("ndarray_uint8", np.array(dup, dtype=np.uint8), dup), ("ndarray_int16_negative", np.array([j - n for j in dup], dtype=np.int16), dup),
+          ("mask_ndarray", np.array(m), msel), ("mask_list", list(m), msel), ("mask_all_false", np.zeros(n, dtype=bool), []), ("mask_series", pd.Series(m), msel),
+          ("series_int", pd.Series(perm), perm), ("series_int_own_index", pd.Series(dup, index=np.arange(len(dup))[::-1] + 3), dup), ("pd_index", pd.Index(perm), perm),
+          ("str_columns", ["start", "end"], R), ("str_columns_reversed", ["end", "start"], R),
+          ("ndarray_empty", np.array([], dtype=np.int64), []), ("series_empty", pd.Series([], dtype=np.int64), [])]
+    # (a[[]], the empty Python list, returns a pandas DataFrame, not an IntervalSet: outside this property's statement, not generated)
+    rows = [K[0], K[1], K[2], K[5 + rng.randrange(9)], K[14], K[15], K[17], K[20], K[23], K[24], K[25], K[26]]
+    cols = [("colon", slice(None)), ("[0,1]", [0, 1]), ("0:2", slice(0, 2)), (":2", slice(None, 2)), ("array01", np.array([0, 1])), ("names", ["start", "end"])]
+    for rn, rk, rsel in rows:
+        for cn, ck in rng.sample(cols, 3):
+            if rn == "mask_list" and cn != "names":
+                continue        # a[[True, False], :] : numpy reads a Python list of bools inside a tuple as a mask too; kept to the plain form
+            K.append(("tuple(%s,%s)" % (rn, cn), (rk, ck), rsel))
+    return K
+
+
+def widen_ops(res, nap, tier, seed):
+    """axes 2-8 on the operations the quantifier names (set operations, split, merge_close_intervals, drop_short/long_intervals, indexing, time_span):
+    receivers on four time lattices (1 us, 2 ms, 0.5 s, 2^-8 s), at 0 / straddling 0 / +-1e5 s, with and without metadata, built through different constructor forms"""
+    quick = tier == "quick"
+    rng = random.Random(seed * 7919 + 15)
+    S = G.canonical_isets(list(range(8)), 3)
+    pending = []          # (what, inp, result, pairs): the result is built from `pairs`, judged by check_output once the model has run
+
+    def canon(what, inp, r, extra=None):
+        if not isinstance(r, nap.IntervalSet):
+            res.violations.append({"key": {"op": what, "part": "type"}, "what": "result is not an IntervalSet", "input": inp, "impl": repr(type(r))})
+            return False
+        v = np.asarray(r.values)
+        if np.isnan(v).any() or not float_canonical(v):
+            res.violations.append({"key": {"op": what, "part": "canonical"}, "what": "result of %s is not canonical" % what, "input": inp, "impl": v.tolist()})
+            return False
+        return True
+
+    def same(what, inp, r, r0, form):
+        """the same instants / the same operands in another argument form: the same set"""
+        if out_ticks(r) != out_ticks(r0):
+            res.disagreements.append({"op": what, "kind": "argument form changes the result", "form": form, "input": inp, "impl": out_ticks(r), "base_form_result": out_ticks(r0)})
+
+    nrec = 56 if quick else 250
+    for n in range(nrec):
+        A = rng.choice(S) if n % 10 else []
+        if n % 14 == 5:
+            A = [(3 * i, 3 * i + rng.choice([1, 2])) for i in range(rng.choice([12, 40]))]      # many intervals
+        step = W_STEPS[n % 4]
+        big = 10**14 // step
+        k = [0, -3, big, -big, -7][(n // 4) % 5]
+        TA = _place(A, step, k)
+        a0 = _mk(nap, TA)
+        a = _mk(nap, TA, meta=n % 2 == 1, how=n % 4)
+        inpA = {"A": TA, "step": step, "metadata": n % 2 == 1}
+        res.count("wops_receiver_len=%s" % (len(A) if len(A) <= 3 else "many"))
+        res.count("wops_step=%d" % step)
+        res.count("wops_placement=%s" % ("0", "straddles0", "+1e5s", "-1e5s", "negative")[(n // 4) % 5])
+        # ---- binary operations
+        for j in range(3 if quick else 4):
+            B = rng.choice(S) if j else []
+            TB = _place(B, step, k)
+            b0 = _mk(nap, TB)
+            b = _mk(nap, TB, meta=j % 2 == 0, how=(n + j) % 4)
+            Cc = _mk(nap, _place(rng.choice(S), step, k))
+            for name in ("union", "intersect", "set_diff"):
+                inp = dict(inpA, B=TB, op=name)
+                r0 = _obtain(res, name, inp, lambda: getattr(a0, name)(b0))
+                if r0 is None or not canon(name, inp, r0):
+                    continue
+                forms = {"keyword": lambda: getattr(a, name)(a=b), "metadata_self": lambda: getattr(a, name)(b0), "metadata_arg": lambda: getattr(a0, name)(b),
+                         "arg_rebuilt_from_columns": lambda: getattr(a0, name)(nap.IntervalSet(b.start, b.end)), "arg_indexed": lambda: getattr(a, name)(b[:])}
+                for fn, f in (forms.items() if not quick else rng.sample(sorted(forms.items()), 2)):
+                    r = _obtain(res, name + "[" + fn + "]", inp, f)
+                    res.evaluations += 1
+                    res.count("wops=%s,%s" % (name, fn))
+                    if r is not None and canon(name + "[" + fn + "]", inp, r):
+                        same(name, inp, r, r0, fn)
+                # three operands / the result fed to the next operation / the same live object twice
+                extra = [("chain3", lambda: getattr(getattr(a, name)(b), rng.choice(["union", "intersect", "set_diff"]))(Cc)),
+                         ("self_twice", lambda: getattr(a, name)(a)), ("result_with_operand", lambda: getattr(getattr(a, name)(b), name)(a))]
+                for fn, f in (extra if not quick else [extra[(n + j) % 3]]):
+                    r = _obtain(res, name + "[" + fn + "]", inp, f)
+                    res.evaluations += 1
+                    res.count("wops=%s,%s" % (name, fn))
+                    if r is not None:
+                        canon(name + "[" + fn + "]", inp, r)
+                        if fn == "self_twice":
+                            pending.append((name + "[self_twice]", inp, r, [] if name == "set_diff" else TA))
+        if not A:
+            for name, f in (("split", lambda: a.split(1)), ("merge_close_intervals", lambda: a.merge_close_intervals(1, "ms")), ("drop_short_intervals", lambda: a.drop_short_intervals(threshold=1)),
+                            ("drop_long_intervals", lambda: a.drop_long_intervals(1, time_units="us")), ("slice", lambda: a[0:2]), ("mask", lambda: a[np.zeros(0, dtype=bool)])):
+                r = _obtain(res, name + "[empty]", inpA, f)
+                res.evaluations += 1
+                res.count("wops=%s,empty_receiver" % name)
+                if r is not None:
+                    pending.append((name + "[empty]", inpA, r, []))
+            continue
+        # ---- operations with a duration argument: every scalar type and unit, positional and keyword
+        for name, pname in (("split", "interval_size"), ("merge_close_intervals", "threshold"), ("drop_short_intervals", "threshold"), ("drop_long_intervals", "threshold")):
+            thr = rng.choice([step, 2 * step, 3 * step, step // 2, step + step // 2])
+            inp = dict(inpA, op=name, ticks=thr)
+            v0 = float(fv([thr])[0])
+            r0 = _obtain(res, name, inp, lambda: getattr(a0, name)(v0))
+            if r0 is None or not canon(name, inp, r0):
+                continue
+            sf = scalar_forms(rng, thr)
+            for v, u, tag in (sf if not quick else rng.sample(sf, min(6, len(sf)))):
+                style = rng.randrange(3)
+                if style == 0:
+                    f = (lambda: getattr(a, name)(v, u)) if u != "s" or rng.random() < 0.5 else (lambda: getattr(a, name)(v))
+                elif style == 1:
+                    f = lambda: getattr(a, name)(**{pname: v, "time_units": u})
+                else:
+                    f = lambda: getattr(a, name)(v, time_units=u)
+                fn = "%s,%s,%s" % (tag, u, ("positional", "keyword", "mixed")[style])
+                inp_f = dict(inp, value=repr(v), time_units=u)
+                r = _obtain(res, name + "[" + fn + "]", inp_f, f)
+                res.evaluations += 1
+                res.count("wops=%s,%s,%s" % (name, tag, u))
+                res.count("wops_call_style=%s" % ("positional", "keyword", "mixed")[style])
+                if r is not None and canon(name + "[" + fn + "]", inp_f, r):
+                    same(name, inp_f, r, r0, fn)
+            # the result fed into the next operation
+            r = _obtain(res, name + "[then time_span / index / union]", inp, lambda: (r0.time_span().union(r0[::2]) if len(r0) else r0.union(a)))
+            res.evaluations += 1
+            if r is not None:
+                canon(name + "[then]", inp, r)
+        # ---- time_span: built from the single pair (first start, last end)
+        r = _obtain(res, "time_span", inpA, lambda: a.time_span())
+        res.evaluations += 1
+        res.count("wops=time_span")
+        if r is not None:
+            pending.append(("time_span", inpA, r, [(TA[0][0], TA[-1][1])]))
+        # ---- indexing: the result is built from the selected rows
+        keys = index_keys(rng, len(TA))
+        for kn, key, rows in (keys if not quick else keys[:5] + rng.sample(keys[5:], 22)):
+            what = "index[%s]" % kn
+            inp = dict(inpA, key=repr(key)[:120])
+            r = _obtain(res, what, inp, lambda: a[key])
+            res.evaluations += 1
+            res.count("wops=index,%s" % (kn if not kn.startswith("tuple") else "tuple(rows,%s" % kn.split(",")[-1]))
+            if r is not None and canon(what, inp, r):
+                pending.append((what, inp, r, [TA[j] for j in rows]))
+        perm = rng.sample(range(len(TA)), len(TA))
+        r = _obtain(res, "index[loc_list]", inpA, lambda: a.loc[perm])
+        res.evaluations += 1
+        res.count("wops=index,loc_list")
+        if r is not None and canon("index[loc_list]", inpA, r):
+            pending.append(("index[loc_list]", dict(inpA, key=perm), r, [TA[j] for j in perm]))
+    model = _model_isets([_mk_line(p[3]) for p in pending])
+    for (what, inp, r, prs), mout in zip(pending, model):
+        check_output(res, what, inp, r, mout, prs)
+
+
+# --------------------------------------------------------------------------------------
+# time supports: every IntervalSet carried by a series / group after a history of operations
+def _sup(o):
+    return out_ticks(o if hasattr(o, "as_units") and not hasattr(o, "time_support") else o.time_support)
+
+
+class _Form:
+    """how one history hands its arguments over.  base: float64 seconds in ndarrays, float64 data, positional scalars.  Otherwise a seeded choice per axis."""
+
+    def __init__(self, rng, base, spec):
+        self.rng, self.base = rng, base
+        tk = spec["tk"]
+        self.unit = "s"
+        self.tform = "ndarray"
+        self.ddt = np.float64
+        self.cols = None
+        if base:
+            return
+        self.ddt = spec["alt_dtype"]
+        self.cols = rng.choice([None, ["b", "a"], [7, 3], ["10", "9"]])
+        self.unit = rng.choice(["s", "ms", "us"])
+        opts = ["ndarray", "list", "tuple", "pd_index", "strided", "tsindex", "t_attr", "pd_series"]
+        if divisible(tk, self.unit):
+            opts += ["int64", "int64", "pylist_int"] + (["uint64", "uint32"] if (not tk or (min(tk) >= 0 and max(tk) // UNIT[self.unit] < 2**32)) else [])
+        if self.unit == "s" and all(float(np.float32(v)) == v for v in fv(tk)):
+            opts += ["float32", "float32"]
+        self.tform = rng.choice(opts)
+        if self.tform in ("tsindex", "t_attr"):
+            self.unit = "s"                         # a TsIndex / the .t of another object is in seconds
+
+    def times(self, nap, tk):
+        u, f = self.unit, self.tform
+        x = fv(tk, u)
+        if f in ("int64", "uint64", "uint32", "pylist_int") and not (divisible(tk, u) and (f in ("int64", "pylist_int") or not tk or (min(tk) >= 0 and max(tk) // UNIT[u] < 2**32))):
+            f = "ndarray"                          # (these instants are not whole units: plain float64)
+        if f == "float32" and not all(float(np.float32(v)) == v for v in x):
+            f = "ndarray"
+        if f == "list":
+            return x.tolist()
+        if f == "tuple":
+            return tuple(x.tolist())
+        if f in ("pd_index",):
+            return pd.Index(x)
+        if f == "pd_series":
+            return pd.Series(x)
+        if f == "strided":
+            return np.repeat(x, 2)[::2]
+        if f == "tsindex":
+            return nap.Ts(t=x).index
+        if f == "t_attr":
+            return nap.Ts(t=x).t
+        if f == "int64":
+            return np.array(iv(tk, u), dtype=np.int64)
+        if f == "uint64":
+            return np.array(iv(tk, u), dtype=np.uint64)
+        if f == "uint32":
+            return np.array(iv(tk, u), dtype=np.uint32)
+        if f == "pylist_int":
+            return iv(tk, u)
+        if f == "float32":
+            return x.astype(np.float32)
+        return x
+
+    def data(self, vals, shape_tail=()):
+        a = np.array([float("nan") if v is None else float(v) for v in vals], dtype=np.float64)
+        a = a.reshape((len(vals),) + (1,) * len(shape_tail)) * np.ones((1,) + tuple(shape_tail)) if shape_tail else a
+        if shape_tail and len(vals):
+            a = a.copy()
+            a[..., 1:] = np.where(np.isnan(a[..., 1:]), a[..., 1:], 1.0)[..., :]       # NaN rows found through ONE entry; +inf and -inf in the same row elsewhere
+        return a.astype(self.ddt)
+
+    def dur(self, ticks, units=True, kinds=("float", "np.float64", "int", "np.int64", "np.uint16")):
+        """(value, unit-or-None) for a duration / instant argument.  (numpy.float32 durations are left out of the histories: find_support / get convert them in single
+        precision, which moves them by 1e-8 relative - no concern of this property, but it would make coincidences with sample times arbitrary)"""
+        if self.base:
+            return float(fv([ticks])[0]), None
+        v, u, _ = self.rng.choice([s for s in scalar_forms(self.rng, ticks, units) if s[2] in kinds])
+        return v, u
+
+    def ep(self, nap, T):
+        if self.base:
+            return _mk(nap, T)
+        return _mk(nap, T, meta=self.rng.random() < 0.3, how=self.rng.randrange(4))
+
+
+def _build_series(nap, F, cls, tk, vals, sup):
+    t = F.times(nap, tk)
+    u = F.unit
+    ts = None if sup is None else F.ep(nap, sup)
+    kw = (not F.base) and F.rng.random() < 0.5
+    if cls == "Ts":
+        if kw:
+            return nap.Ts(t=t, time_units=u, time_support=ts)
+        return nap.Ts(t, u, ts) if not F.base else nap.Ts(t, time_support=ts)
+    if isinstance(t, pd.Series):
+        t = t.values                               # (a pandas Series as `t` of a Tsd means index = time: given below for Tsd only)
+    if cls == "Tsd":
+        d = F.data(vals)
+        if (not F.base) and F.tform == "pd_series":
+            return nap.Tsd(pd.Series(d, index=fv(tk, u)), time_units=u, time_support=ts)
+        return nap.Tsd(t=t, d=d, time_units=u, time_support=ts) if kw else nap.Tsd(t, d, u, ts)
+    if cls == "TsdFrame":
+        d = F.data(vals, (2,))
+        return nap.TsdFrame(t=t, d=d, time_units=u, time_support=ts, columns=F.cols) if kw or F.cols is not None else nap.TsdFrame(t, d, u, ts)
+    d = F.data(vals, (2, 2))
+    return nap.TsdTensor(t=t, d=d, time_units=u, time_support=ts) if kw else nap.TsdTensor(t, d, u, ts)
+
+
+def _run_history(nap, F, spec, tmpdir):
+    """-> list of (label, support ticks | ('EXC', type)); the objects' supports are returned too for the canonicity oracle"""
+    import os
+    rec, objs = [], []
+    rng = F.rng
+    cur = ["build"]
+
+    def note(label, o):
+        rec.append((label, _sup(o)))
+        objs.append((label, o if isinstance(o, nap.IntervalSet) else o.time_support))
+
+    try:
+        x = _build_series(nap, F, spec["cls"], spec["tk"], spec["vals"], spec["sup"])
+        note("build", x)
+        for op in spec["ops"]:
+            k = op[0]
+            cur[0] = k
+            kw = (not F.base) and rng.random() < 0.5
+            if k == "restrict":
+                e = F.ep(nap, op[1])
+                x = x.restrict(iset=e) if kw else x.restrict(e)
+            elif k == "slice":
+                x = x[op[1]:op[2]:op[3]]
+            elif k == "mask":
+                m = np.arange(len(x)) % op[1] != 0
+                x = x[m]
+            elif k == "get":
+                (a, ua), (b, ub) = F.dur(op[1]), F.dur(op[2])
+                if ua != ub:                      # one time_units for both bounds
+                    a, b, ua = float(fv([op[1]], "ms")[0]), float(fv([op[2]], "ms")[0]), "ms"
+                x = x.get(a, b) if ua is None else (x.get(start=a, end=b, time_units=ua) if kw else x.get(a, b, ua))
+            elif k == "thr":
+                while x.ndim > 1:                 # threshold is a Tsd method: one column / one entry of the frame / tensor
+                    x = x[:, op[1] % x.shape[1]]
+                v = op[1] / 2.0
+                if not F.base:
+                    v = rng.choice([v, np.float32(v)] + ([int(v), np.int64(v)] if v == int(v) else []))
+                x = x.threshold(thr=v, method=op[2]) if kw else (x.threshold(v, op[2]) if op[2] != "above" or not F.base else x.threshold(v))
+            elif k == "dropna":
+                x = x.dropna(update_time_support=op[1]) if kw else (x.dropna(op[1]) if not op[1] or not F.base else x.dropna())
+            elif k == "fs":
+                v, u = F.dur(op[1])
+                r = x.find_support(v) if u is None else (x.find_support(min_gap=v, time_units=u) if kw else x.find_support(v, u))
+                note("find_support", r)
+                if op[2]:
+                    x = x.restrict(r)
+            elif k == "same":
+                x = [lambda: x * 1, lambda: np.maximum(x, x.values), lambda: x + 0, lambda: x.copy(), lambda: x[:]][op[1]]()
+            elif k == "nanify":
+                x = x / x.values                  # 0 / 0 -> NaN (the same live data used twice)
+            elif k == "saveload":
+                p = os.path.join(tmpdir, "h%d.npz" % (0 if F.base else 1))
+                x.save(p)
+                x = nap.load_file(p)
+            elif k == "count":
+                v, u = F.dur(op[1], kinds=("float", "np.float64", "int"))        # (count accepts float / int only: TypeError otherwise, C05's concern)
+                e = None if op[2] is None else F.ep(nap, op[2])
+                if u is None:
+                    x = x.count(v, e)
+                elif kw:
+                    x = x.count(bin_size=v, ep=e, time_units=u)
+                else:
+                    x = x.count(v, e, u)
+            elif k == "bin_average":
+                v, u = F.dur(op[1])
+                e = None if op[2] is None else F.ep(nap, op[2])
+                x = x.bin_average(v, e) if u is None else (x.bin_average(bin_size=v, ep=e, time_units=u) if kw else x.bin_average(v, e, u))
+            elif k == "value_from":
+                src = nap.Ts(F.times(nap, op[1]), time_units=F.unit)
+                e = None if op[2] is None else F.ep(nap, op[2])
+                x = src.value_from(data=x, ep=e) if kw else src.value_from(x, e)
+            elif k == "interp":
+                src = nap.Ts(F.times(nap, op[1]), time_units=F.unit)
+                e = None if op[2] is None else F.ep(nap, op[2])
+                x = x.interpolate(ts=src, ep=e) if kw else x.interpolate(src, e)
+            elif k == "concat":
+                s = x.time_support
+                if len(s) < 2:
+                    continue
+                i = 1 + op[1] % (len(s) - 1)
+                x = np.concatenate((x.restrict(s[:i]), x.restrict(s[i:])))
+            elif k == "col":
+                x = x[:, op[1] % x.shape[1]] if x.ndim > 1 and x.shape[1] else x
+            elif k == "group":
+                keys = op[1]
+                members = {keys[0]: x, keys[1]: x[::2], keys[2]: nap.Ts(t=x.t[:1], time_support=x.time_support)}
+                g = nap.TsGroup(members) if op[2] == 0 else (nap.TsGroup(members, time_support=x.time_support, bypass_check=op[2] == 2))
+                note("group", g)
+                for kk in g.keys():
+                    note("group_member", g[kk])
+                continue
+            note(k, x)
+    except Exception as ex:
+        rec.append(("EXC", type(ex).__name__ + ": " + str(ex)[:80], cur[0]))
+    return rec, objs
+
+
+_HIST_SETS = G.canonical_isets(list(range(12)), 3)
+
+
+def _rand_history(rng, quick):
+    step = rng.choice(W_STEPS)
+    big = 10**14 // step
+    k = rng.choice([0, 0, -4, big, -big, -20])
+    N = 12
+    pts = sorted(rng.choice(range(N)) for _ in range(rng.choice([0, 1, 2, 3, 5, 8, 8])))
+    if rng.random() < 0.5:
+        pts = sorted(set(pts))
+    if pts and rng.random() < 0.1:
+        pts = [pts[0]] * len(pts)                                # all timestamps equal
+    lat = lambda p: (p + k) * step
+    tk = [lat(p) for p in pts]
+    S = _HIST_SETS
+    iset = lambda: [(lat(a), lat(b)) for a, b in rng.choice(S)]
+    cls = rng.choice(["Tsd", "Tsd", "Tsd", "TsdFrame", "TsdTensor", "Ts"])
+    nonfinite = cls != "Ts" and rng.random() < 0.4
+    pool = [0, 1, 2, 3] + ([None, None, float("inf"), float("-inf")] if nonfinite else [])
+    vals = [rng.choice(pool) for _ in pts]
+    if pts and rng.random() < 0.1:
+        vals = [rng.choice(pool)] * len(pts)                     # all-equal data / zeros / all NaN
+    if nonfinite:
+        alt = rng.choice([np.float64, np.float32])
+    else:
+        alt = rng.choice([np.float64, np.float32, np.int64, np.int16, np.uint8, np.bool_])      # (each dtype costs one numba specialisation per kernel)
+        if alt is np.bool_:
+            vals = [v % 2 for v in vals]
+    sup = None if rng.random() < 0.35 else iset()
+    if sup is None and len(set(tk)) == 1 and rng.random() < 0.7:
+        sup = [(tk[0] - step, tk[0] + step)]                     # (coinciding timestamps get an EMPTY default support: tested on purpose 30% of the time)
+    ops = []
+    for _ in range(rng.randint(1, 4)):
+        c = rng.choice(["restrict", "slice", "mask", "get", "thr", "thr", "dropna", "dropna", "fs", "fs", "same", "nanify", "saveload", "count", "bin_average",
+                        "value_from", "interp", "concat", "col", "group"])
+        if c == "restrict":
+            ops.append((c, iset()))
+        elif c == "slice":
+            ops.append((c, rng.choice([None, 0, 1, -3]), rng.choice([None, -1, 4]), rng.choice([None, 2])))
+        elif c == "mask":
+            ops.append((c, rng.choice([2, 3])))
+        elif c == "get":
+            a, b = sorted([rng.randrange(-1, N + 1), rng.randrange(-1, N + 1)])
+            ops.append((c, lat(a), lat(b)))
+        elif c == "thr" and cls != "Ts":
+            ops.append(("col", rng.randrange(2)))
+            ops.append((c, rng.choice([1, 2, 3, 4, -1, 0]), rng.choice(["above", "below", "aboveequal", "belowequal"])))
+        elif c == "dropna" and cls != "Ts":
+            ops.append((c, rng.random() < 0.7))
+        elif c == "fs":
+            ops.append((c, rng.choice([step // 2, step + step // 2, 2 * step + step // 2]), rng.random() < 0.5))      # (never equal to a gap between samples: see float_ambiguous)
+        elif c == "same" and cls != "Ts":
+            ops.append((c, rng.randrange(5)))
+        elif c == "nanify" and cls != "Ts":
+            ops.append((c,))
+            ops.append(("dropna", True))
+        elif c == "saveload":
+            ops.append((c,))
+        elif c == "count":
+            ops.append((c, rng.choice([step, 2 * step, 4 * step]), rng.choice([None, iset()])))
+        elif c == "bin_average" and cls != "Ts":
+            ops.append((c, rng.choice([2 * step, 4 * step]), rng.choice([None, iset()])))
+        elif c in ("value_from", "interp") and cls != "Ts":
+            ops.append((c, sorted(lat(rng.randrange(N)) for _ in range(rng.randint(0, 5))), rng.choice([None, iset()])))
+        elif c == "concat" and cls != "Ts":
+            ops.append((c, rng.randrange(3)))
+        elif c == "group" and cls in ("Ts", "Tsd"):
+            ops.append((c, rng.choice([[0, 1, 2], [7, 3, 5], ["4", "10", "2"], [2.0, 0.0, 1.0]]), rng.randrange(3)))
+            break
+    return {"cls": cls, "tk": tk, "vals": vals, "sup": sup, "ops": ops, "alt_dtype": alt, "step": step}
+
+
+def widen_supports(res, nap, tier, seed):
+    """axes 1-8 on the IntervalSets CARRIED AS TIME SUPPORTS and returned by threshold / dropna / find_support: seeded histories run twice, once in the base argument
+    form and once in a seeded other form of the same instants and values; every support met on the way must be canonical (statement) and the two runs must agree"""
+    import os
+    import tempfile
+    quick = tier == "quick"
+    rng = random.Random(seed * 7919 + 16)
+    tmp = tempfile.mkdtemp(prefix="c01h")
+    pending = []
+    for n in range(800 if quick else 4000):
+        spec = _rand_history(rng, quick)
+        fseed = rng.randrange(10**9)
+        inp = {k: (v if k != "alt_dtype" else np.dtype(v).name) for k, v in spec.items()}
+        inp["vals"] = [None if v is None else v for v in spec["vals"]]
+        rb, ob = _run_history(nap, _Form(random.Random(fseed), True, spec), spec, tmp)
+        Fa = _Form(random.Random(fseed), False, spec)
+        ra, oa = _run_history(nap, Fa, spec, tmp)
+        inp["form"] = {"t": Fa.tform, "time_units": Fa.unit, "dtype": np.dtype(Fa.ddt).name, "columns": Fa.cols, "form_seed": fseed}
+        res.case(("h", n, fseed), nontrivial=len(spec["tk"]) >= 2)
+        res.evaluations += len(ra)
+        res.count("wsup_class=%s" % spec["cls"])
+        res.count("wsup_t_form=%s" % Fa.tform)
+        res.count("wsup_units=%s" % Fa.unit)
+        res.count("wsup_dtype=%s" % np.dtype(Fa.ddt).name)
+        res.count("wsup_n_samples=%s" % min(len(spec["tk"]), 3))
+        if spec["sup"] is None:
+            res.count("wsup_default_support")
+        if any(v is None for v in spec["vals"]):
+            res.count("wsup_data_nan")
+        if any(v in (float("inf"), float("-inf")) for v in spec["vals"] if v is not None):
+            res.count("wsup_data_inf")
+        if spec["tk"] and spec["tk"][0] < 0:
+            res.count("wsup_negative_times")
+        if spec["tk"] and abs(spec["tk"][0]) >= 10**13:
+            res.count("wsup_offset_1e5s")
+        for op in spec["ops"]:
+            res.count("wsup_op=%s" % op[0])
+        for run_name, objs in (("base", ob), ("form", oa)):
+            for label, ep in objs:
+                v = np.asarray(ep.values)
+                if np.isnan(v).any() or not float_canonical(v):
+                    res.violations.append({"key": {"op": "support_after[%s]" % label, "part": "canonical"}, "what": "a time support / returned IntervalSet is not canonical (%s run)" % run_name,
+                                           "input": inp, "impl": v.tolist()})
+        if rb and rb[-1][0] == "EXC":
+            res.count("wsup_history_stopped_by_clean_exception")
+        if [r for r in ra if r[0] != "EXC"] != [r for r in rb if r[0] != "EXC"][:len([r for r in ra if r[0] != "EXC"])] or \
+                (ra and ra[-1][0] == "EXC") != (rb and rb[-1][0] == "EXC") or len(ra) != len(rb):
+            if ra and ra[-1][0] == "EXC" and not (rb and rb[-1][0] == "EXC"):
+                res.violations.append({"key": {"op": "history[%s]" % ra[-1][2], "part": "exception", "type": ra[-1][1].split(":")[0]},
+                                       "what": "an accepted argument form raises where the base form returns: %s" % ra[-1][1], "input": inp})
+            else:
+                res.disagreements.append({"op": "history", "kind": "argument form changes a time support", "input": inp, "impl": ra, "base_form_result": rb})
+        # the default support of a series is built from the single pair (first, last timestamp)
+        if spec["sup"] is None and oa:
+            tk = spec["tk"]
+            pending.append(("default_support[%s,%s,%s]" % (spec["cls"], Fa.tform, Fa.unit), inp, oa[0][1], [(tk[0], tk[-1])] if tk else []))
+    model = _model_isets([_mk_line(p[3]) for p in pending])
+    for (what, inp, ep, prs), mout in zip(pending, model):
+        check_output(res, what, inp, ep, mout, prs)
+    for f in os.listdir(tmp):
+        os.remove(os.path.join(tmp, f))
+    os.rmdir(tmp)
+
+
+def _group_history(nap, rng, base, spec, tmpdir):
+    """one TsGroup history -> (records, supports met)"""
+    import os
+    rec, objs = [], []
+    cur = ["build"]
+
+    def note(label, o):
+        e = o if isinstance(o, nap.IntervalSet) else o.time_support
+        rec.append((label, out_ticks(e)))
+        objs.append((label, e))
+
+    def ep(T):
+        return _mk(nap, T) if base else _mk(nap, T, meta=rng.random() < 0.3, how=rng.randrange(4))
+
+    def num(ticks, kinds=("float", "np.float64", "int", "np.int64")):
+        if base:
+            return float(fv([ticks])[0]), None
+        v, u, _ = rng.choice([s for s in scalar_forms(rng, ticks) if s[2] in kinds])
+        return v, u
+
+    try:
+        raw = spec["raw"]                        # members handed over as bare arrays (the group builds the Ts itself, with ITS time_units)
+        u = "s" if base else (rng.choice(["s", "ms", "us"]) if raw else "s")
+        sup = None if spec["sup"] is None else ep(spec["sup"])
+        members = []
+        for tk, msup in spec["members"]:
+            if raw:
+                x = fv(tk, u)
+                if not base:
+                    c = rng.randrange(4)
+                    x = x.tolist() if c == 0 else (np.array(iv(tk, u), dtype=np.int64) if c == 1 and divisible(tk, u) else x)
+                members.append(x)
+            else:
+                F = _Form(rng, base, {"tk": tk, "alt_dtype": np.float64})
+                members.append(_build_series(nap, F, spec["cls"], tk, [1] * len(tk), msup))
+        keys = spec["keys"] if not base else [int(float(k)) for k in spec["keys"]]
+        if spec["as_list"] and not base:
+            data = members                       # keys 0..n-1 by position (spec["keys"] is 0..n-1 in this case)
+        else:
+            data = dict(zip(keys, members))
+        bypass = spec["bypass"] and not base
+        if bypass and sup is not None and not raw:
+            data = {k: m.restrict(sup) for k, m in data.items()} if isinstance(data, dict) else [m.restrict(sup) for m in data]      # bypass_check=True promises members already restricted
+        elif bypass:
+            bypass = False
+        if base:
+            g = nap.TsGroup(data, time_support=sup, time_units=u)
+        elif rng.random() < 0.5:
+            g = nap.TsGroup(data, sup, u, bypass)
+        else:
+            g = nap.TsGroup(data=data, time_units=u, bypass_check=bypass, time_support=sup, metadata={"lab": ["g%d" % i for i in range(len(members))]} if rng.random() < 0.5 else None)
+        note("group", g)
+        for k in sorted(g.keys()):
+            note("member", g[k])
+        for op in spec["ops"]:
+            cur[0] = op[0]
+            kw = (not base) and rng.random() < 0.5
+            if op[0] == "restrict":
+                e = ep(op[1])
+                g = g.restrict(ep=e) if kw else g.restrict(e)
+            elif op[0] == "subset":
+                ks = [k for i, k in enumerate(sorted(g.keys())) if i % 2 == op[1]]
+                if not ks:
+                    continue
+                g = g[ks] if base else rng.choice([lambda: g[ks[::-1]], lambda: g[np.array(ks)], lambda: g[np.isin(np.array(sorted(g.keys())), ks)], lambda: g[ks]])()
+            elif op[0] == "get":
+                (a, ua), (b, ub) = num(op[1]), num(op[2])
+                if ua != ub:
+                    a, b, ua = float(fv([op[1]], "us")[0]), float(fv([op[2]], "us")[0]), "us"
+                g = g.get(a, b) if ua is None else (g.get(start=a, end=b, time_units=ua) if kw else g.get(a, b, ua))
+            elif op[0] == "merge":
+                other = nap.TsGroup({100: nap.Ts(t=fv(op[1]), time_support=_mk(nap, op[2]))})
+                if op[3] == 0:
+                    g = g.merge(other, reset_time_support=True, ignore_metadata=True)
+                elif op[3] == 1:
+                    g = nap.TsGroup.merge_group(g, other, g, reset_index=True, reset_time_support=True, ignore_metadata=True)       # three operands, one of them twice
+                else:
+                    g = g.merge(g, reset_index=True, ignore_metadata=not base and rng.random() < 0.5)                                    # the same live group twice, support kept
+            elif op[0] == "count":
+                v, uu = num(op[1], kinds=("float", "np.float64", "int"))
+                e = None if op[2] is None else ep(op[2])
+                c = g.count(v, e) if uu is None else (g.count(bin_size=v, ep=e, time_units=uu) if kw else g.count(v, e, uu))
+                note("count", c)
+                continue
+            elif op[0] == "to_tsd":
+                note("to_tsd", g.to_tsd())
+                continue
+            elif op[0] == "saveload":
+                p = os.path.join(tmpdir, "g%d.npz" % (0 if base else 1))
+                g.save(p)
+                g = nap.load_file(p)
+            note(op[0], g)
+            for k in sorted(g.keys()):
+                note("member", g[k])
+    except Exception as ex:
+        rec.append(("EXC", type(ex).__name__ + ": " + str(ex)[:80], cur[0]))
+    return rec, objs
+
+
+def widen_groups(res, nap, tier, seed):
+    """axes 2-4 and 6-8 on the time support of a TsGroup: members given as Ts / Tsd or bare arrays / lists (with time_units s/ms/us), in a dict (keys not 0..n-1, unsorted,
+    multi-digit strings, floats) or a list, empty members, an empty group, support passed or not, bypass_check; then restrict / subset / get / merge (three operands,
+    the same group twice, option flags combined) / count / to_tsd / save+load.  Every support met must be canonical; a group built without time_support must cover
+    exactly the union of its members' supports; the base-form run must give the same supports"""
+    import os
+    import tempfile
+    quick = tier == "quick"
+    rng = random.Random(seed * 7919 + 17)
+    tmp = tempfile.mkdtemp(prefix="c01g")
+    S = _HIST_SETS
+    N = 12
+    pending = []
+    for n in range(240 if quick else 2000):
+        step = rng.choice(W_STEPS)
+        big = 10**14 // step
+        k = rng.choice([0, 0, -4, big, -big])
+        lat = lambda p: (p + k) * step
+        iset = lambda: [(lat(a), lat(b)) for a, b in rng.choice(S)]
+        raw = rng.random() < 0.3
+        nm = rng.choice([0, 1, 2, 3, 3, 4])
+        members = []
+        for _ in range(nm):
+            pts = sorted(set(rng.randrange(N) for _ in range(rng.choice([0, 1, 2, 4, 6]))))
+            members.append(([lat(p) for p in pts], None if raw or rng.random() < 0.5 else iset()))
+        as_list = rng.random() < 0.25
+        keysets = [list(range(nm)), [7, 3, 12, 5][:nm], ["4", "10", "2", "33"][:nm], [2.0, 0.0, 11.0, 1.0][:nm], [np.int64(9), np.int64(1), np.int64(4), np.int64(2)][:nm]]
+        spec = {"raw": raw, "cls": rng.choice(["Ts", "Tsd"]), "members": members, "as_list": as_list, "keys": list(range(nm)) if as_list else rng.choice(keysets),
+                "sup": None if rng.random() < 0.5 else iset(), "bypass": rng.random() < 0.4, "ops": [], "step": step}
+        for _ in range(rng.randint(0, 3)):
+            c = rng.choice(["restrict", "subset", "get", "merge", "count", "to_tsd", "saveload"])
+            if c == "restrict":
+                spec["ops"].append((c, iset()))
+            elif c == "subset":
+                spec["ops"].append((c, rng.randrange(2)))
+            elif c == "get":
+                a, b = sorted([rng.randrange(-1, N + 1), rng.randrange(-1, N + 1)])
+                spec["ops"].append((c, lat(a), lat(b)))
+            elif c == "merge":
+                spec["ops"].append((c, sorted(lat(rng.randrange(N)) for _ in range(3)), iset(), rng.randrange(3)))
+            elif c == "count":
+                spec["ops"].append((c, rng.choice([step, 2 * step]), rng.choice([None, iset()])))
+            else:
+                spec["ops"].append((c,))
+        fseed = rng.randrange(10**9)
+        rb, ob = _group_history(nap, random.Random(fseed), True, spec, tmp)
+        ra, oa = _group_history(nap, random.Random(fseed), False, spec, tmp)
+        inp = {k_: (v if k_ != "keys" else [repr(x) for x in v]) for k_, v in spec.items()}
+        inp["form_seed"] = fseed
+        res.case(("g", n, fseed), nontrivial=nm >= 2)
+        res.evaluations += len(ra)
+        res.count("wgroup_members=%d" % nm)
+        res.count("wgroup_keys=%s" % ("list" if as_list else type(spec["keys"][0]).__name__ + ("" if spec["keys"] == list(range(nm)) else ",not_0..n-1") if nm else "none"))
+        res.count("wgroup_members_as=%s" % ("bare_arrays" if raw else spec["cls"]))
+        if any(not m[0] for m in members):
+            res.count("wgroup_has_empty_member")
+        if spec["sup"] is None:
+            res.count("wgroup_no_time_support_passed")
+        elif spec["bypass"]:
+            res.count("wgroup_bypass_check")
+        for op in spec["ops"]:
+            res.count("wgroup_op=%s" % op[0])
+        for run_name, objs in (("base", ob), ("form", oa)):
+            for label, e in objs:
+                v = np.asarray(e.values)
+                if np.isnan(v).any() or not float_canonical(v):
+                    res.violations.append({"key": {"op": "group_support_after[%s]" % label, "part": "canonical"}, "what": "a time support carried by a group / its member is not canonical (%s run)" % run_name,
+                                           "input": inp, "impl": v.tolist()})
+        if rb and rb[-1][0] == "EXC":
+            res.count("wgroup_history_stopped_by_clean_exception")
+        strip = lambda r: [x for x in r if x[0] != "EXC"]
+        if ra and ra[-1][0] == "EXC" and not (rb and rb[-1][0] == "EXC"):
+            res.violations.append({"key": {"op": "group_history[%s]" % ra[-1][2], "part": "exception", "type": ra[-1][1].split(":")[0]},
+                                   "what": "an accepted argument form raises where the base form returns: %s" % ra[-1][1], "input": inp})
+        elif strip(ra) != strip(rb) or len(ra) != len(rb):
+            res.disagreements.append({"op": "group_history", "kind": "argument form changes a time support", "input": inp, "impl": ra, "base_form_result": rb})
+        # built without time_support: the group's support is the union of the members' supports
+        if spec["sup"] is None and oa and oa[0][0] == "group":
+            msup = []
+            for tk, ms in members:                     # (a series without timestamps carries an EMPTY support whatever support it was given)
+                msup += [] if not len(tk) else (ms if ms is not None else [(tk[0], tk[-1])])
+            pending.append(("TsGroup.time_support[union of members]", inp, oa[0][1], msup))
+    for what, inp, e, prs in pending:
+        check_output(res, what, inp, e, None, prs)
+    for f in os.listdir(tmp):
+        os.remove(os.path.join(tmp, f))
+    os.rmdir(tmp)
+
+
+def widen_options(res, nap, tier, seed):
+    """axis 3, strings: option strings in another letter case / unknown (time_units, threshold method): the documented values are lower case, so the call must either
+    raise a clean Python exception or return canonical sets - never reach a kernel unvalidated and hand back garbage"""
+    a = nap.IntervalSet([0.0, 2.0, 5.0], [1.0, 4.0, 9.0])
+    x = nap.Tsd(t=np.arange(10.0), d=np.array([0, 3, 3, 0, 0, 3, 0, 3, 3, 0.0]), time_support=nap.IntervalSet([0.0, 5.0], [4.0, 9.0]))
+    calls = []
+    for u in ("S", "MS", "Ms", "US", "sec", "", None, 1):
+        calls += [("IntervalSet(time_units=%r)" % (u,), lambda u=u: nap.IntervalSet([0.0, 1.0], [0.5, 2.0], time_units=u)),
+                  ("split(time_units=%r)" % (u,), lambda u=u: a.split(1.0, u)), ("merge_close_intervals(time_units=%r)" % (u,), lambda u=u: a.merge_close_intervals(1.0, u)),
+                  ("drop_short_intervals(time_units=%r)" % (u,), lambda u=u: a.drop_short_intervals(1.0, u)), ("drop_long_intervals(time_units=%r)" % (u,), lambda u=u: a.drop_long_intervals(1.0, time_units=u)),
+                  ("find_support(time_units=%r)" % (u,), lambda u=u: x.find_support(1.0, u)), ("Ts(time_units=%r)" % (u,), lambda u=u: nap.Ts(np.arange(3.0), time_units=u)),
+                  ("TsGroup(time_units=%r)" % (u,), lambda u=u: nap.TsGroup({0: np.arange(3.0)}, time_units=u))]
+    for m in ("Above", "BELOW", "AboveEqual", "belowEqual", "above ", "", None, "greater"):
+        calls += [("threshold(method=%r)" % (m,), lambda m=m: x.threshold(1.0, m)), ("threshold(method=%r,kw)" % (m,), lambda m=m: x.threshold(thr=1, method=m))]
+    for what, f in calls:
+        r = _obtain(res, what, {"call": what}, f, strict=False)
+        res.evaluations += 1
+        res.count("woptions=%s" % what.split("(")[0])
+        if r is None:
+            continue
+        e = r if isinstance(r, nap.IntervalSet) else r.time_support
+        v = np.asarray(e.values)
+        if np.isnan(v).any() or not float_canonical(v):
+            res.violations.append({"key": {"op": what, "part": "canonical"}, "what": "an option string outside the documented values is accepted and the result is not canonical", "input": {"call": what}, "impl": v.tolist()})
 
 
 def search(res, seed):
@@ -219,7 +1416,33 @@ def replay(payload):
     warnings.simplefilter("ignore")
     v = payload.get("violation") or (payload.get("disagreements") or [{}])[0]
     inp = v.get("input", {})
-    if "start" in inp:
+    what = v.get("key", {}).get("op", v.get("op", ""))
+    if "start" in inp and isinstance(inp.get("form"), str):
+        # a widened constructor form: rebuild the same call
+        print("violation / disagreement recorded:", json.dumps({k: v[k] for k in v if k != "input"}, default=str)[:600])
+        print("input:", json.dumps(inp, default=str)[:600])
+        ss, es = inp["start"], inp["end"]
+        forms = {f[0]: f for f in ctor_forms(nap)}
+        r = C.Result()
+        if inp["form"] in forms and all(isinstance(x, int) for x in ss + es):
+            ep = _obtain(r, what, inp, lambda: forms[inp["form"]][2](ss, es), forms[inp["form"]][3])
+            if ep is not None:
+                print("implementation:", ep.values.tolist())
+                check_output(r, what, inp, ep, None, list(zip(ss, es)))
+        elif inp["form"].startswith("dataframe with index"):
+            d = {"start": fv(ss), "end": fv(es)}
+            if "metadata column" in inp["form"]:
+                d["lab"] = ["m%d" % i for i in range(len(ss))]
+            ep = _obtain(r, what, inp, lambda: nap.IntervalSet(pd.DataFrame(d, index=np.arange(len(ss)) * 2 + 3)), True, {k: x for k, x in v.get("key", {}).items() if k.startswith(("dataframe", "rows"))})
+            if ep is not None:
+                print("implementation:", ep.values.tolist())
+                check_output(r, what, inp, ep, None, list(zip(ss, es)))
+        else:
+            print("(this argument form is rebuilt by the generators only: re-run ./check C01 with the same VERIF_SEED)")
+            return 1
+        print("violations:", r.violations)
+        return 1 if r.violations else 0
+    if "start" in inp and "form" not in inp and all(isinstance(x, int) for x in inp["start"] + inp["end"]):
         ep = nap.IntervalSet(G.arr(inp["start"]), G.arr(inp["end"]))
         print("input start=%s end=%s (ticks)" % (inp["start"], inp["end"]))
         print("implementation:", ep.values.tolist())
@@ -227,7 +1450,9 @@ def replay(payload):
         check_output(r, "IntervalSet(start,end)", inp, ep, None, list(zip(inp["start"], inp["end"])))
         print("violations:", r.violations)
         return 1 if r.violations else 0
-    print("replay of operation results: input", inp)
+    print("violation / disagreement recorded:", json.dumps({k: v[k] for k in v if k != "input"}, default=str)[:800])
+    print("replay of operation results / histories: input", json.dumps(inp, default=str)[:1500])
+    print("(histories are rebuilt by the seeded generators: re-run ./check C01 with the same VERIF_SEED)")
     return 1
 
 # --- Glue layer (DESIGN.md 10.11): the Python between the API and the kernels, tied by proof in Properties/C01c.v; this is the
